@@ -41,7 +41,7 @@ Definition check_set (c : list Z * list (option Z) * list index * list nat * lis
 Definition check_rev (c : Z * Z * list index * bool) : bool :=
   let '(size, nb, idx, reversed) := c in
   match parse_indices [size; nb] idx with
-  | Ok (p :: _) => Bool.eqb (reverse_bounds size (size * nb) p) reversed
+  | Ok (p :: _) => Bool.eqb (reverse_bounds nb size (size * nb) p) reversed
   | _ => false
   end.
 
